@@ -57,6 +57,9 @@ def obligations(tier, seed):
     for L in (20, 21, 22): obs.append(dict(name='address/addr-to-scriptpubkey/payload%d' % L, kind='addr2spk', L=L))
     for n in (0, 1) if tier == 'quick' else (0, 1, 2, 3):
         for m in (0, 1): obs.append(dict(name='bech32/roundtrip/n%d/m%d' % (n, m), kind='bech', n=n, m=m))
+    # human-readable parts of 1-3 characters, each one of '1', 'a', '~' - so it may contain the separator character '1' (BIP173: the LAST '1' separates; seed C14-6 took the first)
+    for hl in (1, 2, 3):
+        for m in (0, 1): obs.append(dict(name='bech32/roundtrip-hrp/hrp%d/m%d' % (hl, m), kind='bechhrp', n=1 if hl == 1 else 0, m=m, hl=hl))
     for m in (0, 1):
         for n in (0, 1) if tier == 'quick' else (0, 2):
             L = 3 + n + 6
@@ -74,9 +77,9 @@ def polymod(vals):
         c = ((c & 0x1ffffff) << 5) ^ z3.ZeroExt(24, R.B(v))
         for i in range(5): c = c ^ z3.If(z3.Extract(i, i, c0) == 1, z3.BitVecVal(GEN[i], 32), z3.BitVecVal(0, 32))
     return z3.simplify(c)
-def bech32_ref(vals, m):
-    hrp = b'bc'
-    exp = [c >> 5 for c in hrp] + [0] + [c & 31 for c in hrp]
+def bech32_ref(vals, m, hrp=b'bc'):
+    hrp = list(hrp)
+    exp = [(c >> 5) if not is_sym(c) else z3.LShR(c, 5) for c in hrp] + [0] + [c & 31 for c in hrp]
     pm = polymod(exp + list(vals) + [0] * 6) ^ (0x2bc830a3 if m else 1)
     chk = [z3.simplify(z3.Extract(4, 0, z3.LShR(pm, 5 * (5 - i)))) for i in range(6)]
     table = lambda v: charset_char(v)
@@ -223,6 +226,15 @@ def prep(ob, V=None):
             raw = outs[0](n); rp = sesslib.Rep(lambda off, n_: (hlib.le(raw[off:off + n_]) if n_ > 1 else raw[off]), (lambda t: hlib.uniq(E, f, t)) if f is not None else None)
             return dict(s=rp.bytes(), enc=rp.u32(), hrp=rp.bytes(), data=rp.bytes())
         return 'w_bech32_roundtrip', [('u32', ob['m']), ('in', vals), ('u32', ob['n']), ('out', 300)], io, lambda ctx: dict(s=bech32_ref(vals, ob['m']), enc=2 if ob['m'] else 1, hrp=list(b'bc'), data=list(vals)), assume, dict(vals=vals)
+    if k == 'bechhrp':
+        vals = [var('v%d' % i) for i in range(ob['n'])]; hrp = [var('h%d' % i) for i in range(ob['hl'])]
+        assume = ([z3.ULT(v, 32) for v in vals] + [z3.Or(c == ord('1'), c == ord('a'), c == ord('~')) for c in hrp]) if sym else []          # each character: the separator itself, a letter, the largest printable (all printable characters: 223 paths, 240 s for ONE character)
+        def io(E, f, ret, outs):
+            if ret is None: return crash(f)
+            n = hlib.uniq(E, f, ret) if f is not None else ret
+            raw = outs[0](n); rp = sesslib.Rep(lambda off, n_: (hlib.le(raw[off:off + n_]) if n_ > 1 else raw[off]), (lambda t: hlib.uniq(E, f, t)) if f is not None else None)
+            return dict(s=rp.bytes(), enc=rp.u32(), hrp=rp.bytes(), data=rp.bytes())
+        return 'w_bech32_roundtrip_hrp', [('u32', ob['m']), ('in', hrp + [0]), ('in', vals), ('u32', ob['n']), ('out', 300)], io, lambda ctx: dict(s=bech32_ref(vals, ob['m'], hrp), enc=2 if ob['m'] else 1, hrp=list(hrp), data=list(vals)), assume, dict(vals=vals, hrp=hrp)
     if k == 'bechcorrupt':
         vals = [var('v%d' % i) for i in range(ob['n'])]; repl = var('repl')
         good = bech32_ref(vals, ob['m'])
@@ -325,7 +337,7 @@ def run(E, ob):
 
 def values(ob, cex):
     V = {}
-    for nm, pfx in (('data', 'b'), ('a', 'a'), ('b', 'b'), ('g', 'g'), ('tag', 't'), ('msg', 'm'), ('vals', 'v'), ('chars', 'c')):
+    for nm, pfx in (('data', 'b'), ('a', 'a'), ('b', 'b'), ('g', 'g'), ('tag', 't'), ('msg', 'm'), ('vals', 'v'), ('chars', 'c'), ('hrp', 'h')):
         for i, x in enumerate(cex.get(nm, [])): V['%s%d' % (pfx, i)] = x
     if 'repl' in cex: V['repl'] = cex['repl']
     return V
@@ -358,7 +370,7 @@ def validate(E, lib):
     rnd = random.Random(9); n = 0
     for ob in obligations('quick', 0)[::4]:
         class RV(dict):
-            def get(s, k, d=0): return rnd.randrange(32) if k.startswith('v') else (ord('q') if k == 'repl' else rnd.randrange(256))
+            def get(s, k, d=0): return rnd.randrange(32) if k.startswith('v') else (ord('q') if k == 'repl' else ((ord('1') if rnd.randrange(3) == 0 else 97 + rnd.randrange(26)) if k.startswith('h') else rnd.randrange(256)))
         V = RV()
         if ob['kind'] in ('b58chk_dec', 'b58chk_enc', 'spk2addr', 'addr2spk'): continue          # these run with a stubbed digit conversion: nothing to compare natively
         fn, spec, io, ref, assume, inputs = prep(ob, V)
